@@ -1,6 +1,7 @@
 import Driver.Util
-import Verif.Model.Merkle
-/-! Model driver for suite c19 (op language: see /verif/go/harness/suite_c19.go). -/
+import Verif.Model.MerkleChecked
+/-! Model driver for suite c19 (op language: see /verif/go/harness/suite_c19.go). Every operation runs the *checked*
+model (`Verif.Model.MerkleChecked`) and prints `panic` where that model panics. -/
 namespace Driver.Merkle
 open Verif.Merkle Driver
 
@@ -23,22 +24,39 @@ structure St where
 def mkLeaves (n : Nat) (tag : String) : Array String :=
   (Array.range n).map (fun i => hash (tag ++ "/" ++ toString i))
 
+/-- render a possibly panicking result -/
+def chk {β : Type} (x : Chk β) (f : β → String) : String :=
+  match x with
+  | .ok b => f b
+  | .panic => "panic"
+
+def rootStr (t : Tree String) : String :=
+  chk (getRootC t) (fun r => if r.isEmpty then "-" else r)
+
 def computeLine (t : Tree String) : String :=
-  "ok " ++ toString t.tree.size ++ " " ++ getRoot "" t ++ " " ++ digest (",".intercalate t.tree.toList)
+  chk (getRootC t) (fun r =>
+    "ok " ++ toString t.tree.size ++ " " ++ (if r.isEmpty then "-" else r) ++ " " ++ digest (",".intercalate t.tree.toList))
 
 def nodesStr (p : List String) : String := if p.isEmpty then "-" else ",".intercalate p
 
+/-- fingerprint of `GetPathByIndex(i)` for all `i < n`; `panic` if one of them panics -/
 def pathsDigest (t : Tree String) (n : Nat) : String :=
-  let lines := (List.range n).map (fun i =>
-    let p := pathByIndex "" t i
-    toString p.leafIndex ++ ":" ++ nodesStr p.nodes ++ "\n")
-  digest (String.join lines)
+  let r := (List.range n).foldl (fun (acc : Chk (List String)) (i : Nat) =>
+    match acc, pathByIndexC "" t (i : Int) with
+    | .ok ls, .ok p => .ok ((toString p.leafIndex ++ ":" ++ nodesStr p.nodes ++ "\n") :: ls)
+    | _, _ => .panic) (.ok [])
+  chk r (fun ls => digest (String.join ls.reverse))
 
 def bstr (b : Bool) : String := if b then "true" else "false"
 
-def pathLine (t : Tree String) (h : String) (p : Path String) : String :=
-  let v := verify mhash h p (getRoot "" t)
-  "ok " ++ toString p.leafIndex ++ " " ++ nodesStr p.nodes ++ " " ++ bstr v ++ " " ++ bstr v
+/-- both verification entry points: `mt.VerifyPath(h, p)` and `VerifyMerklePath(h, p, mt.GetRoot())` -/
+def verdict (t : Tree String) (h : String) (p : Path String) : Chk Bool := verifyPathC mhash t h (some p)
+
+def pathLine (t : Tree String) (h : String) (p : Chk (Path String)) : String :=
+  chk p (fun p => chk (verdict t h p) (fun v =>
+    "ok " ++ toString p.leafIndex ++ " " ++ nodesStr p.nodes ++ " " ++ bstr v ++ " " ++ bstr v))
+
+def computeOn (ls : Array String) : Chk (Tree String) := computeTreeC mhash "" ls.toList
 
 def step (s : St) (w : List String) : St × String :=
   match s.tree, w with
@@ -48,75 +66,95 @@ def step (s : St) (w : List String) : St × String :=
     let i := i.toNat!; let j := j.toNat!
     if i < s.leaves.size ∧ j < s.leaves.size then ({ s with leaves := s.leaves.set! i s.leaves[j]! }, "ok") else (s, "bad-op")
   | none, ["compute"] =>
-    if s.leaves.size = 0 then (s, "bad-op") else
-    let t := computeTree mhash "" s.leaves.toList
-    ({ s with tree := some t }, computeLine t)
+    match computeOn s.leaves with
+    | .ok t => ({ s with tree := some t }, computeLine t)
+    | .panic => (s, "panic")
+  | none, ["zero"] => ({ s with tree := some zeroTree }, "ok")
   | some _, ["recompute", n, tag] =>
-    if n.toNat! = 0 then (s, "bad-op") else
     let ls := mkLeaves n.toNat! tag
-    let t := computeTree mhash "" ls.toList
-    ({ s with leaves := ls, tree := some t }, computeLine t)
+    match computeOn ls with
+    | .ok t => ({ s with leaves := ls, tree := some t }, computeLine t)
+    | .panic => (s, "panic")
   | some t, ["export"] =>
     ({ s with exports := s.exports.push (t.tree, s.leaves.size) }, "ok " ++ toString s.exports.size)
   | some _, ["loadcompute", k, n, tag] =>
     match s.exports[k.toNat!]? with
     | none => (s, "bad-op")
     | some (arr, m) =>
-      if n.toNat! = 0 then (s, "bad-op") else
       match setTree m arr with
       | none => (s, "err")
-      | some _ => (s, computeLine (computeTree mhash "" (mkLeaves n.toNat! tag).toList))
+      | some _ => (s, chk (computeOn (mkLeaves n.toNat! tag)) computeLine)
   | some _, ["checkexport", k] =>
     match s.exports[k.toNat!]? with
     | none => (s, "bad-op")
     | some (arr, m) =>
       match setTree m arr with
       | none => (s, "err")
-      | some t2 => (s, "ok " ++ getRoot "" t2 ++ " " ++ pathsDigest t2 m)
+      | some t2 => (s, chk (getRootC t2) (fun r => "ok " ++ r ++ " " ++ pathsDigest t2 m))
   | some t, ["tree"] => (s, "ok " ++ ",".intercalate t.tree.toList)
+  | some t, ["root"] => (s, chk (getRootC t) (fun r => "ok " ++ (if r.isEmpty then "-" else r)))
+  | some t, ["pathraw", i] =>
+    match i.toInt? with
+    | some i => (s, chk (pathByIndexC "" t i) (fun p => "ok " ++ toString p.leafIndex ++ " " ++ nodesStr p.nodes))
+    | none => (s, "bad-op")
+  | some t, ["verifynil", tag] => (s, chk (verifyPathC mhash t (hash tag) none) bstr)
+  | some t, ["loadraw", m] =>
+    match m.toInt? with
+    | none => (s, "bad-op")
+    | some m =>
+      match setTreeC m t.tree with
+      | none => (s, "err")
+      | some t2 =>
+        (s, "ok " ++ rootStr t2 ++ " " ++
+          chk (pathByIndexC "" t2 0) (fun p => toString p.leafIndex ++ ":" ++ nodesStr p.nodes))
   | some t, ["pathidx", i] =>
     let i := i.toNat!
-    if i < s.leaves.size then (s, pathLine t s.leaves[i]! (pathByIndex "" t i)) else (s, "bad-op")
+    if i < s.leaves.size then (s, pathLine t s.leaves[i]! (pathByIndexC "" t (i : Int))) else (s, "bad-op")
   | some t, ["pathleaf", i] =>
     let i := i.toNat!
-    if i < s.leaves.size then (s, pathLine t s.leaves[i]! (getPath "" t s.leaves[i]!)) else (s, "bad-op")
-  | some t, ["pathmissing", tag] => (s, pathLine t (hash tag) (getPath "" t (hash tag)))
-  | some t, ["allpaths"] => (s, "ok " ++ pathsDigest t s.leaves.size)
+    if i < s.leaves.size then (s, pathLine t s.leaves[i]! (getPathC "" t s.leaves[i]!)) else (s, "bad-op")
+  | some t, ["pathmissing", tag] => (s, pathLine t (hash tag) (getPathC "" t (hash tag)))
+  | some t, ["allpaths"] =>
+    let d := pathsDigest t s.leaves.size
+    (s, if d = "panic" then d else "ok " ++ d)
   | some t, ["verifyall"] =>
-    let root := getRoot "" t
-    let c := (List.range s.leaves.size).foldl (fun c i =>
-      if verify mhash s.leaves[i]! (pathByIndex "" t i) root then c + 1 else c) 0
+    let c := (List.range s.leaves.size).foldl (fun (c : Nat) (i : Nat) =>
+      match pathByIndexC "" t (i : Int) with
+      | .ok p => if verdict t s.leaves[i]! p = .ok true then c + 1 else c
+      | .panic => c) 0
     (s, "ok " ++ toString c)
   | some t, ["offer", i, j] =>
     let i := i.toNat!; let j := j.toNat!
     if i < s.leaves.size ∧ j < s.leaves.size then
-      (s, bstr (verify mhash s.leaves[j]! (pathByIndex "" t i) (getRoot "" t)))
+      (s, chk (pathByIndexC "" t (i : Int)) (fun p => chk (verdict t s.leaves[j]! p) bstr))
     else (s, "bad-op")
   | some t, ["offerrand", i, tag] =>
     let i := i.toNat!
-    if i < s.leaves.size then (s, bstr (verify mhash (hash tag) (pathByIndex "" t i) (getRoot "" t))) else (s, "bad-op")
+    if i < s.leaves.size then (s, chk (pathByIndexC "" t (i : Int)) (fun p => chk (verdict t (hash tag) p) bstr))
+    else (s, "bad-op")
   | some t, ["offerall", i] =>
     let i := i.toNat!
     if i < s.leaves.size then
-      let p := pathByIndex "" t i
-      let root := getRoot "" t
-      let c := (List.range s.leaves.size).foldl (fun c j =>
-        if j ≠ i ∧ verify mhash s.leaves[j]! p root then c + 1 else c) 0
-      (s, "ok " ++ toString c)
+      (s, chk (pathByIndexC "" t (i : Int)) (fun p =>
+        let c := (List.range s.leaves.size).foldl (fun (c : Nat) (j : Nat) =>
+          if j ≠ i ∧ verdict t s.leaves[j]! p = .ok true then c + 1 else c) 0
+        "ok " ++ toString c))
     else (s, "bad-op")
   | some t, ["vidx", i, k] =>
     let i := i.toNat!
     match k.toInt? with
     | some k =>
       if i < s.leaves.size then
-        let p := pathByIndex "" t i
-        (s, bstr (verify mhash s.leaves[i]! { p with leafIndex := k } (getRoot "" t)))
+        (s, chk (pathByIndexC "" t (i : Int)) (fun p => chk (verdict t s.leaves[i]! { p with leafIndex := k }) bstr))
       else (s, "bad-op")
     | none => (s, "bad-op")
   | some t, ["settree", m] =>
-    match setTree m.toNat! t.tree with
-    | none => (s, "err")
-    | some t2 => (s, "ok " ++ getRoot "" t2 ++ " " ++ pathsDigest t2 s.leaves.size)
+    match m.toInt? with
+    | none => (s, "bad-op")
+    | some m =>
+      match setTreeC m t.tree with
+      | none => (s, "err")
+      | some t2 => (s, chk (getRootC t2) (fun r => "ok " ++ r ++ " " ++ pathsDigest t2 s.leaves.size))
   | _, _ => (s, "bad-op")
 
 def main : IO Unit := loop ({} : St) step
